@@ -235,8 +235,10 @@ carquet_status_t carquet_read_dictionary_page(
             }
             reader->dictionary_offsets[i] = (uint32_t)(dict_ptr - page_data);
             uint32_t len = carquet_read_u32_le(dict_ptr);
-            size_t entry_size = 4 + len;
-            if (dict_remaining < entry_size) {
+            /* Widen before adding: in 32-bit arithmetic 4 + 0xFFFFFFFF wraps
+             * to 3 and a hostile length would pass the bounds check below. */
+            size_t entry_size = (size_t)4 + (size_t)len;
+            if (len > (uint32_t)INT32_MAX || dict_remaining < entry_size) {
                 free(reader->dictionary_data);
                 free(reader->dictionary_offsets);
                 reader->dictionary_data = NULL;
